@@ -11,16 +11,16 @@ P = {
  "C01": ("tree", "5.C01", "Every input of the v1 universes (<=k-deviation slot trees from 3 baselines, every byte string up to depth d after every stem, every byte value at every position of 8 baseline lines, length / long-field / UTF-8 lists, and every call history of <=3/4 parses from a 15-input pool in one reused buffer) is parsed by both v1 entry points and compared with an independent grammar oracle: acceptance iff, decoded values, header text.", "reference grammar = my reading of C01; address/port value spaces covered by boundary menus, std's address parsers trusted outside the menus (oracle is compared with std on the menus at start-up)"),
  "C02": ("tree", "5.C02", "All 65536 control-byte pairs x boundary lengths x presence relations, the 24 valid pairs x all 65536 lengths, every one- and two-byte signature corruption, single-position and path-shaped address patterns, structured TLV payloads (every type byte x lengths x fills), call histories of <=5/6 parses and a byte tree are parsed and compared with a table-driven oracle (accept iff, decoded command/transport/family/addresses, header bytes).", "payload bytes beyond the address block assumed not to influence acceptance beyond what U2-byte / TLV universes vary"),
  "C03": ("tree", "5.C03", "The union of all parser and TLV universes is pushed through every public entry point, accessor, formatter, owned-copy conversion and TLV drain under catch_unwind with a hang watchdog and an explicit step cap, in two build configurations (overflow checks and debug assertions on / off).", "hang detection is a timeout plus step caps; 64-bit target only"),
- "C04": ("tree", "5.C04", "Every input the real parsers accept anywhere in the v1 / v2 / mixed universes is re-parsed alone and followed by each of 323 trailers (all single bytes, all pairs over 8 critical bytes, a v1 header, a v2 header, 600 bytes) through v1-bytes, v1-text, v2 and auto-detect; results must be identical and the reported length exact.", "metamorphic oracle, no reference parser needed; trailers longer than 2 bytes are structured"),
+ "C04": ("tree", "5.C04", "Every input the real parsers accept anywhere in the v1 / v2 / mixed universes is re-parsed alone and followed by each of 336 trailers (all single bytes, all pairs over 8 critical bytes, a v1 header, a v2 header, 600 bytes) through v1-bytes, v1-text, v2 and auto-detect; results must be identical and the reported length exact.", "metamorphic oracle, no reference parser needed; trailers longer than 2 bytes are structured"),
  "C05": ("tree", "5.C05", "For every accepted header of the universes every proper prefix is parsed through the version's entry points and auto-detect and must be flagged incomplete; a receiver loop over a growing buffer is simulated literally for all splits into <=3 reads (all 2^(n-1) splits for headers <=16 bytes); the completeness flags are checked on every result.", "v2 headers above 700 bytes use dense head/tail cuts and a stride of 97 in between"),
  "C06": ("tree", "5.C06", "Every string over an 11-byte mixed alphabet up to length 6/7, signature prefixes x v1 prefixes, v1/v2 concatenations and all v1 / v2 universes go through HeaderResult::parse and both dedicated parsers; the auto result must be the documented combination.", "relative to the dedicated parsers by the property's own statement"),
  "C07": ("values", "5.C07", "Both commands x three transports x the address-value universe x fixed TLV lists, one address per family x every raw type byte and every TLV list of length <=2 over 15 type bytes x 6 value lengths (plus length-3/4 lists, totals of exactly 65533..65535 bytes), and one TLV whose value is every string up to length 5/6 over {00,01,02,03,FF,own type,a,.}, are built three ways (write_tlv, write_payload, one write_payloads batch), compared with an independent spec encoder and parsed back.", "TLV values are byte patterns; registered type codes copied from the spec text"),
  "C08": ("values", "5.C08", "Every value of the address universe (6561 IPv4 octet combinations as src and dst, 121 port pairs, all 256 IPv6 zero-run masks x all assignments of 3 group values, bit/byte walks, special shapes) is formatted, checked against the grammar oracle's own decoder and parsed back by all four text entry points; accepted headers format back to their text.", "value spaces covered by structure, std Display/FromStr trusted outside the universe"),
- "C09": ("bfs", "5.C09", "Explicit-state BFS over real Builder objects: every call history up to depth D over a 41-call alphabet from 7 constructors, a boundary alphabet that crosses 65535/65536/65551 bytes and a core alphabet to a greater depth; in every state build() is compared with the model's length field / must-fail verdict.", "writes attempted beyond the writer's size limit are unspecified by the properties and not asserted"),
+ "C09": ("bfs", "5.C09", "Explicit-state BFS over real Builder objects: every call history up to depth D over a 58-call main alphabet from 7 constructors (depth 3 / 4), a boundary alphabet that crosses 65535/65536/65551 bytes (depth 4 / 6), a limit alphabet with one call per write path (depth 4 / 5) and a 12-call core alphabet (depth 6 / 9), cross-checked against a stateright exploration of the same transition function; in every state build() is compared with the model's length field / must-fail verdict.", "writes attempted beyond the writer's size limit are unspecified by the properties and not asserted"),
  "C10": ("bfs", "5.C10", "The same explicit-state BFS; in every state the built bytes (length field masked) must equal the reference concatenation of construction-time block and payload encodings in call order; reserve_capacity and batching are no-ops of the model.", "encodings from the independent reference encoder; 64-bit usize"),
  "C11": ("tree", "5.C11", "Every string over {00,01,02,04,FF} up to length n, every string over {00,02,a,.,-} up to length 8/10, every truncation of structured 1-3 item sequences (lengths 0,1,2,255,256,257,65534,65535), every type byte x 16 lengths x 4 fills, runs of 254..4096 items and nested SSL values are iterated (next, size_hint, count, fold, for_each, last at every cursor position) raw and embedded in a header of each family, next() driven 3 calls past the end, and compared item by item with the reference walk.", "random longer sections of the quantifier are replaced by structured long ones"),
  "C12": ("tree", "5.C12", "Well-formed v1 lines and v2 headers with exactly one element replaced by every invalid value of its menu (every combination of valid alternatives elsewhere; every signature byte x 255 values; every invalid nibble value x all valid others; every too-small length) must fail terminally with the error kind (and v2 payload) naming that element.", "replacement tokens never contain SP/CR; inner std errors ignored"),
- "C13": ("tree", "5.C13", "Every header the parser accepts in the v2 universes and embedded TLV universes is rebuilt through the real Builder four ways (raw views, tlvs() section, decoded items, decoded address value) and must reproduce the original bytes.", "lengths between boundaries covered with a stride"),
+ "C13": ("tree", "5.C13", "Every header the parser accepts in the v2 universes and embedded TLV universes is rebuilt through the real Builder five ways (a write_payloads batch as the first write, raw views, tlvs() section, decoded items, decoded address value) and must reproduce the original bytes.", "lengths between boundaries covered with a stride"),
  "C14": ("tree", "5.C14", "On every accepted header of the v2 universes (every length 0..65535 for all 24 control pairs), borrowed and owned, the view identities (partition, sizes, length accessors, family agreement, big-endian decoding) are evaluated.", "helper methods not named by the statement are advisory only"),
  "C15": ("tree", "5.C15", "On every header accepted in the v1 universes, protocol(), addresses_str() and to_string() are compared with quantities computed from the input bytes, and the re-assembly identity is checked, for borrowed and owned headers from both entry points.", "`between` is computed by the harness from the input"),
  "C16": ("tree", "5.C16", "Every valid-UTF-8 input of the v1 universes goes through the four v1 entry points (same outcome, or an error in all when the window splits a character); every accepted v1/v2 header and decoded TLV is copied with to_owned, compared, and re-compared after the source buffer is overwritten and dropped.", "memory safety of 'static copies is the type system's"),
